@@ -283,6 +283,26 @@ def run(ck):
               if ok else "Cron.start does not create the reload queue before the task can run", st, st.node)
         superchain(ck, R3, 'start', classes={CRON})
 
+    R12 = ck.rule('R07.12', "a recalculation never edits the scheduler's registry: add_block / remove_block on the "
+                  "cron service are called from the reconfiguration handlers only (a registration is keyed by the "
+                  "time of day and may serve end points on other dates; what recalc - which runs for every alarm - "
+                  "removes is lost for them)", 'M0', 3)
+    with ck.section('R07.12'):
+        n12 = 0
+        for q in (TD, TS):
+            ci = prog.cls(q)
+            for m in ci.methods.values():
+                for x in own_nodes(m.node):
+                    if isinstance(x, ast.Call) and call_name(x) in ('add_block', 'remove_block') and \
+                            recv(x).endswith('_cron'):
+                        n12 += 1
+                        ok = m.node.name == '_event_reconfig'
+                        ck.ob(R12, f"{m.fid} :: {call_name(x)}", ok,
+                              "registration changed by the reconfiguration handler" if ok else
+                              f"`{norm1(x)}` in {m.node.name}(): the registry of wake-up times is edited outside a "
+                              "reconfiguration - an alarm removed here is also the alarm of every other end point "
+                              "with the same time of day, whose boundary is then never recalculated", m, x)
+        ck.need(R12, n12 >= 3, f"only {n12} cron registration sites found in TimeDate/TimeSpan (5 confirmed by hand)")
     with ck.section('R07.4'):
         # ------------------------------------------------------------------ R07.4
         for q in (TD, TS):
